@@ -15,4 +15,4 @@ Extraction "model.ml"
   rule_unique rule_subrange reassemble mkDecl
   rule_symbolic
   rule_const_init rule_const_not_fb rule_global_const rule_task rule_enum_value rule_fb_call rule_stdlib xform_type_init resolve_expr_kinds xform_data_decl rule_struct_unique rule_enum_unique rule_subrange_limits
-  parse_expr_text render_expr parse_fb_text parse_fbd_text parse_lib_text parse_lib2_text render_list render_decls render_lib2 render_fb render_text text_ok spell_all norm_tok.
+  parse_expr_text render_expr parse_fb_text parse_fbd_text parse_lib_text parse_lib2_text render_list render_decls render_lib2 render_fb render_text text_ok spell_all norm_tok tok_sep.
